@@ -42,3 +42,8 @@ claimed["C12"] = (
  "All 256 subsets of 8 owned disposables failing on a 4-scope tree x {Close(s1), Close(s2), Close(s3), Close(provider), cancel} first, then repeated closes; plus every schedule (bound 2/3) of 2-3 concurrent Close / cancel calls with 3 failing sets. Oracle: every owned instance attempted exactly once, DisposalError iff a failing instance was closed by that call, every injected error reachable from exactly one returned error, repeated and losing Closes return nil.",
  "bounds as stated; errors of closes performed by the cancellation watcher are documented as ignored and are not required to be reported",
  "DESIGN.md 6/C12")
+claimed["C19"] = (
+ "explicit-state breadth-first search over the real internal/graph component against a reference digraph, states = (model, reflective deep dump), successors by replay on fresh graphs",
+ "BFS over {AddProvider, AddProviderDeferred(+DetectCycles), RemoveProvider, Clear, DetectCycles} on pools of 2 and 3 node identities (type/key/group mixed): with dependency lists of length <=1 the canonical state space CLOSES (depth 6 / 8), which covers operation sequences of any length over that alphabet; with lists of length 2 the search is cut at a state cap and reported as not exhaustive. After every transition all 12 queries are issued twice in different orders and compared with the digraph; a rejected add must leave the cache-free deep dump unchanged. Thorough adds a 4-identity pool.",
+ "immediate adds are only issued on graphs that are acyclic and whose deferred adds were completed by DetectCycles; degree-based queries are compared only then",
+ "DESIGN.md 6/C19")
